@@ -21,7 +21,13 @@ def findByte (b : Byte) (d : Bytes) : Option Nat :=
   let i := d.findIdx (· = b)
   if i < d.length then some i else none
 
-/-- what "honours the frame interface" means (DESIGN.md section 5/C20) -/
+/-- what "honours the frame interface" means (DESIGN.md section 5/C20).
+    The laws speak about success and failure only, never about WHICH error a codec reports: the interface's
+    `EParseError` has NOERR / ERR / HDR / FOOT and a codec may report any rejection with any of the three
+    non-NOERR codes (`hdrDecode_short` says `∃ e`, `frameDecode_iff` characterises `.ok`).  Accordingly the
+    client / device models (`Reasm.run c`, `recvHandleWith c`) branch on `.ok` / `.error _` only — the model of
+    `err is not EParseError.NOERR` — and no further error kind is needed in `Err` for codecs that use the
+    generic `ERR` (the check runs such codecs: harness/famcodec.py, realisations `e` / `E`). -/
 structure LawfulCodec (c : Codec) : Prop where
   hdrLen_pos : 1 ≤ c.hdrLen
   /-- `hdr_find` = index of the first start byte -/
@@ -41,6 +47,12 @@ structure LawfulCodec (c : Codec) : Prop where
       the decoder knows: `frame_create` also packs ids 9..255, whose header `hdr_decode` rejects) -/
   frameCreate_decode : ∀ fid p f, c.frameCreate fid (some p) = .ok f → fid ≤ 8 →
     c.frameDecode f = .ok ⟨fid, p⟩ ∧ ∃ h, c.hdrDecode f = .ok h ∧ h.flen = f.length
+
+/-- `frame_create(fid, None)` is `frame_create(fid, b"")`: the optional payload of the interface
+    (`data: bytes | None`) adds no bytes when absent.  Not part of `LawfulCodec` (which speaks about
+    decoding and about created frames with a payload); needed only where the library itself passes
+    `None` — `Parser.frame_cmninfo`. -/
+def Codec.NoneEmpty (c : Codec) : Prop := ∀ fid, c.frameCreate fid none = c.frameCreate fid (some [])
 
 namespace Serial
 /-- the built-in NxScope serial codec -/
